@@ -209,6 +209,10 @@ def conform(ip, st, v, ty):
         if head == "Key" and isinstance(v, Str):
             return Opaque(ip.reg.key(v.s))
         raise Mismatch(ty)
+    if head == "Dict":
+        if isinstance(v, Ref) and isinstance(st.heap[v.cid], ValCell):
+            return v
+        raise Mismatch(ty)
     if head == "Str":
         if isinstance(v, Str) and (not args or args[0].strip("'\"") == v.s):
             return v
@@ -734,7 +738,13 @@ def _sf_old(ip, e, st):
     env.update(o.env)
     s = State.__new__(State)
     s.env, s.heap, s.pc, s.trace, s.catching, s.depth, s.notes = env, o.heap, st.pc, st.trace, st.catching, st.depth, st.notes
-    return ip.ev1(e.args[0], s)
+    v = ip.ev1(e.args[0], s)
+    # a reference to a mutable value is snapshotted: old(d) is the VALUE d had, whatever happens to the object later
+    if isinstance(v, Ref) and isinstance(o.heap.get(v.cid), ValCell):
+        return Opaque(ip.deref(s, v))
+    if isinstance(v, Ref) and isinstance(o.heap.get(v.cid), LstCell):
+        return ip.lst_view(ip.deref(s, v))
+    return v
 
 
 def _sf_implies(ip, e, st):
@@ -776,5 +786,11 @@ def _sf_rest(ip, e, st):
     return View(ITE(CMP("<", n, I(0)), I(0), n), lambda i: src.get(ADD(cur, i)))
 
 
+def _dict_forms():
+    from .dicts import FORMS
+    return FORMS
+
+
 SPEC_FORMS = {"old": _sf_old, "implies": _sf_implies, "iff": _sf_iff, "pulled": _sf_pulled, "content": _sf_content,
               "rest": _sf_rest}
+SPEC_FORMS.update(_dict_forms())
